@@ -472,18 +472,78 @@ def _run_unit(args):
     return res
 
 
+def _unit_child(u, conn):
+    try:
+        res = _run_unit(u)
+    except BaseException as e:     # noqa
+        res = dict(unit="%s(%s)" % (u[1], u[2]),
+                   harness_errors=["unit crashed: %r" % (e,)])
+    try:
+        conn.send(res)
+    finally:
+        conn.close()
+
+
+def _hard_limit(u):
+    """wall-clock limit after which a unit's process is killed: a z3 call
+    that does not honour its timeout (seen with nested radicals) cannot be
+    interrupted from inside the process"""
+    kw = u[2]
+    d = kw.get("deadline_s")
+    if d:
+        return min(UNIT_WATCHDOG_S + 120, 2 * int(d) + 180)
+    return UNIT_WATCHDOG_S + 120
+
+
 def run_units(report, units, nproc=None):
     """units: list of (module, function, kwargs); each runs in its own
-    process (fresh interpreter state, own z3 context)."""
+    process (fresh interpreter state, own z3 context) under a hard
+    wall-clock limit; a killed unit is reported as incomplete, never as
+    held."""
     nproc = nproc or ncpu()
-    if nproc == 1 or len(units) == 1:
-        for u in units:
-            report.add_unit(_run_unit(u))
-        return
     import multiprocessing as mp
-    with cf.ProcessPoolExecutor(
-            max_workers=min(nproc, len(units)),
-            mp_context=mp.get_context("spawn"),
-            max_tasks_per_child=1) as ex:
-        for res in ex.map(_run_unit, units):
-            report.add_unit(res)
+    ctx = mp.get_context("spawn")
+    pending = list(enumerate(units))
+    running, results = {}, {}
+
+    def stopped(u, why, harness=False):
+        r = dict(unit="%s(%s)" % (u[1], u[2]), obligations=0, discharged=0,
+                 undecided=[] if harness else [why],
+                 stats=dict(paths=0, queries=dict(unsat=0, sat=0, unknown=0),
+                            solver_s=0.0, incomplete=why))
+        if harness:
+            r["harness_errors"] = [why]
+        return r
+    while pending or running:
+        while pending and len(running) < nproc:
+            i, u = pending.pop(0)
+            rd, wr = ctx.Pipe(duplex=False)
+            p = ctx.Process(target=_unit_child, args=(u, wr))
+            p.start()
+            wr.close()
+            running[i] = (p, rd, time.time(), u)
+        for i, (p, rd, t0, u) in list(running.items()):
+            if rd.poll(0):
+                try:
+                    results[i] = rd.recv()
+                except Exception as e:
+                    results[i] = stopped(u, "unit result lost: %r" % (e,),
+                                         harness=True)
+                p.join(10)
+                del running[i]
+            elif not p.is_alive():
+                if rd.poll(0.2):
+                    continue
+                results[i] = stopped(u, "unit process died (exit code %s)" %
+                                     p.exitcode, harness=True)
+                del running[i]
+            elif time.time() - t0 > _hard_limit(u):
+                p.kill()
+                p.join(10)
+                results[i] = stopped(
+                    u, "unit killed after %d s (a solver call did not "
+                    "return)" % _hard_limit(u))
+                del running[i]
+        time.sleep(0.05)
+    for i in sorted(results):
+        report.add_unit(results[i])
